@@ -495,6 +495,18 @@ class Interp:
         if kind is None:
             return None
         crate_rel = kind.split("::", 1)[1] if kind.startswith("retrofire_") else kind
+        # several impls for one ADT (e.g. Color<[u8; N]> and Color<[f32; N]>): prefer the element type of the value
+        if args and kind not in ("f32", "int") and not kind.startswith("tuple"):
+            v0 = deref_all(self, args[0])
+            elem = None
+            if isinstance(v0, tuple) and v0[0] == "adt" and v0[3] and isinstance(v0[3][0], tuple) and v0[3][0][0] == "array" and v0[3][0][1]:
+                e0 = deref_all(self, v0[3][0][1][0])
+                elem = "f32" if (isinstance(e0, tuple) and e0[0] in ("sym", "symop", "f")) else ("int" if isinstance(e0, int) else None)
+            matching = [b for b in cands if (b.impl_self or "").startswith(crate_rel + "<") or (b.impl_self or "") == crate_rel]
+            if len(matching) > 1 and elem:
+                pref = [b for b in matching if ("[f32" in (b.impl_self or "")) == (elem == "f32") and ("[f32" in (b.impl_self or "") or elem != "f32")]
+                generic = [b for b in matching if "[f32" not in (b.impl_self or "") and "[u8" not in (b.impl_self or "") and "[i32" not in (b.impl_self or "") and "[u32" not in (b.impl_self or "")]
+                cands = (pref or generic or matching)
         for b in cands:
             st = b.impl_self or ""
             if kind == "f32" and st == "f32":
@@ -502,6 +514,11 @@ class Interp:
             if kind.startswith("tuple") and st.startswith("(") and st.count(",") == int(kind[5:]) - 1:
                 return b
             if crate_rel != "f32" and not kind.startswith("tuple") and (st.startswith(crate_rel + "<") or st == crate_rel):
+                return b
+        # blanket impl `impl<T: ..> Trait for T`
+        for b in cands:
+            st = b.impl_self or ""
+            if _re.match(r"^[A-Z][A-Za-z0-9_]*$", st) and not kind.startswith("tuple") and kind != "int":
                 return b
         return None
 
